@@ -217,16 +217,30 @@ abbrev BlkMat := List (List Blk)
 
 def fullMat (t : Nat → Nat → Blk) : BlkMat := (List.range 4).map fun l => (List.range 4).map fun r => t l r
 
-/-- `bose_hubbard(length, …)`: all sites get the full table, then `tensors[0]` := row 0, then `tensors[-1]` := column 3
-    of the *full* table (so for `length = 1` the single tensor is 4×1 — the code as it is) -/
+/-- `bose_hubbard(length, …)`: all sites get the full table, then `tensors[0]` := row 0, then
+    `tensors[-1] := tensors[-1][:, :, :, 3:4]` — column 3 of whatever the last tensor is at that point, i.e. of the
+    row-0 slice when the chain has a single site (commit 522fc8a) -/
 def bhTensors (L : Nat) : List BlkMat :=
+  let full := fullMat bhTable
+  let ts := (List.replicate L full).set 0 [full.headD []]
+  ts.set (L - 1) ((ts.getD (L - 1) []).map fun row => [row.getD 3 .zero])
+
+/-- code as found (before 522fc8a): the right boundary was sliced from the *full* table, so a single site ended up 4×1 -/
+def bhTensorsOld (L : Nat) : List BlkMat :=
   let full := fullMat bhTable
   let ts := List.replicate L full
   let ts := ts.set 0 [full.headD []]
   ts.set (L - 1) (full.map fun row => [row.getD 3 .zero])
 
-/-- `coupled_transmon`: inner qubit table -/
+/-- `coupled_transmon`: inner qubit table (commit 201a5d0; rows: 0 / 2 = term finished, 1 = left resonator holds `x_r`,
+    3 = nothing placed yet — the convention of the boundary tensors and the resonator table) -/
 def ctQubit (l r : Nat) : Blk :=
+  match l, r with
+  | 0, 0 => .id | 2, 0 => .id | 1, 0 => .gx | 3, 0 => .hq | 3, 1 => .id | 3, 2 => .gx | 3, 3 => .id
+  | _, _ => .zero
+
+/-- code as found (before 201a5d0): inner qubit table with the opposite start/done convention -/
+def ctQubitOld (l r : Nat) : Blk :=
   match l, r with
   | 0, 0 => .hq | 0, 1 => .id | 0, 2 => .gx | 1, 3 => .gx | 0, 3 => .id | 3, 3 => .id
   | _, _ => .zero
@@ -237,13 +251,30 @@ def ctRes (l r : Nat) : Blk :=
   | 0, 0 => .id | 1, 2 => .hr | 2, 0 => .xr | 3, 1 => .xr | 3, 3 => .id
   | _, _ => .zero
 
-/-- `coupled_transmon(length, …)` site by site, exactly the branches of the loop -/
-def ctTensors (L : Nat) : List BlkMat :=
+/-- `tensor[:, 0] + tensor[:, 2]` row by row, symbolically: in every row of the resonator table at most one of the two
+    blocks is non-zero, so the sum is that block -/
+def blkAdd (a b : Blk) : Blk := if a = .zero then b else a
+
+/-- tensor of site `i` of `coupled_transmon(length = L, …)`, exactly the branches of the loop -/
+def ctSite (L i : Nat) : BlkMat :=
+  if i % 2 = 0 then
+    if L = 1 then [[.hq]]
+    else if i = 0 then [[.hq, .id, .gx, .id]]
+    else if i = L - 1 then [[.id], [.gx], [.id], [.hq]]
+    else fullMat ctQubit
+  else
+    if i = L - 1 then (fullMat ctRes).map fun row => [blkAdd (row.getD 0 .zero) (row.getD 2 .zero)]
+    else fullMat ctRes
+
+def ctTensors (L : Nat) : List BlkMat := (List.range L).map (ctSite L)
+
+/-- code as found (before 201a5d0) -/
+def ctTensorsOld (L : Nat) : List BlkMat :=
   (List.range L).map fun i =>
     if i % 2 = 0 then
       if i = 0 then [[.hq, .id, .gx, .id]]
       else if i = L - 1 then [[.id], [.gx], [.id], [.hq]]
-      else fullMat ctQubit
+      else fullMat ctQubitOld
     else fullMat ctRes
 
 section generic
@@ -296,25 +327,32 @@ def bhChainSum (B : Nat → Blk → α → α → K) (σ σ' : Nat → α) (k n 
         * (bv B σ σ' (k + i) .up * bv B σ σ' (k + i + 1) .dnJ + bv B σ σ' (k + i) .dn * bv B σ σ' (k + i + 1) .upJ)
         * idProd B σ σ' (k + i + 2) (n - i - 2)).sum
 
-/-- the documented qubit–resonator–qubit chain (`length = 3`): `h_q + h_r + h_q + g x_q x_r + x_r g x_q` -/
-def ctChain3 (B : Nat → Blk → α → α → K) (σ σ' : Nat → α) : K :=
-  bv B σ σ' 0 .hq * bv B σ σ' 1 .id * bv B σ σ' 2 .id
-    + bv B σ σ' 0 .id * bv B σ σ' 1 .hr * bv B σ σ' 2 .id
-    + bv B σ σ' 0 .id * bv B σ σ' 1 .id * bv B σ σ' 2 .hq
-    + bv B σ σ' 0 .gx * bv B σ σ' 1 .xr * bv B σ σ' 2 .id
-    + bv B σ σ' 0 .id * bv B σ σ' 1 .xr * bv B σ σ' 2 .gx
-
-/-- local term of the documented transmon chain at site `i` (qubit: `h_q`, resonator: `h_r`) and its coupling operator -/
+/-- local term of the documented transmon chain at site `i` (qubit: `h_q`, resonator: `h_r`) and its coupling operator
+    (qubit: `g·x_q`, resonator: `x_r`) -/
 def ctLocal (i : Nat) : Blk := if i % 2 = 0 then .hq else .hr
 def ctCoupl (i : Nat) : Blk := if i % 2 = 0 then .gx else .xr
 
-/-- the documented transmon chain of any length as explicit sums -/
-def ctChainSum (B : Nat → Blk → α → α → K) (σ σ' : Nat → α) (n : Nat) : K :=
+/-- the documented transmon chain on sites `k … k+n-1` minus the local term of site `k` (peeling off the first site) -/
+def ctRest (B : Nat → Blk → α → α → K) (σ σ' : Nat → α) : Nat → Nat → K
+  | _, 0 => 0
+  | _, 1 => 0
+  | k, n + 2 =>
+    bv B σ σ' k (ctCoupl k) * bv B σ σ' (k + 1) (ctCoupl (k + 1)) * idProd B σ σ' (k + 2) n
+      + bv B σ σ' k .id * (bv B σ σ' (k + 1) (ctLocal (k + 1)) * idProd B σ σ' (k + 2) n + ctRest B σ σ' (k + 1) (n + 1))
+
+/-- the documented transmon chain on sites `k … k+n-1`: `Σ_i h_i + Σ_i c_i c_{i+1}` with `h` = `h_q`/`h_r` and
+    `c` = `g·x_q`/`x_r` by parity of the site, identities elsewhere -/
+def ctChain (B : Nat → Blk → α → α → K) (σ σ' : Nat → α) (k : Nat) : Nat → K
+  | 0 => 0
+  | n + 1 => bv B σ σ' k (ctLocal k) * idProd B σ σ' (k + 1) n + ctRest B σ σ' k (n + 1)
+
+/-- the same chain as explicit sums over the site / bond index (sites `k … k+n-1`) -/
+def ctChainSum (B : Nat → Blk → α → α → K) (σ σ' : Nat → α) (k n : Nat) : K :=
   ((List.range n).map fun i =>
-      idProd B σ σ' 0 i * bv B σ σ' i (ctLocal i) * idProd B σ σ' (i + 1) (n - i - 1)).sum
+      idProd B σ σ' k i * bv B σ σ' (k + i) (ctLocal (k + i)) * idProd B σ σ' (k + i + 1) (n - i - 1)).sum
     + ((List.range (n - 1)).map fun i =>
-      idProd B σ σ' 0 i * (bv B σ σ' i (ctCoupl i) * bv B σ σ' (i + 1) (ctCoupl (i + 1)))
-        * idProd B σ σ' (i + 2) (n - i - 2)).sum
+      idProd B σ σ' k i * (bv B σ σ' (k + i) (ctCoupl (k + i)) * bv B σ σ' (k + i + 1) (ctCoupl (k + i + 1)))
+        * idProd B σ σ' (k + i + 2) (n - i - 2)).sum
 
 end generic
 
